@@ -1033,7 +1033,7 @@ func (c *Ctx) firstMatchOnly(l *mapLoop) bool {
 			case *ssa.Return, *ssa.MapUpdate, *ssa.Store:
 			case *ssa.Call:
 				call := in.(*ssa.Call)
-				if cal := call.Call.StaticCallee(); cal != nil && cal.Name() == "Matches" {
+				if cal := call.Call.StaticCallee(); cal != nil && c.P.RefName(cal) == "Matches" {
 					continue
 				}
 				if _, isB := call.Call.Value.(*ssa.Builtin); isB {
@@ -1045,7 +1045,7 @@ func (c *Ctx) firstMatchOnly(l *mapLoop) bool {
 			dep := false
 			for _, f := range prog.DominatingFacts(b) {
 				if call, ok := f.Cond.(*ssa.Call); ok && f.Val {
-					if cal := call.Call.StaticCallee(); cal != nil && cal.Name() == "Matches" && len(call.Call.Args) == 2 && l.isIterKey(call.Call.Args[1]) {
+					if cal := call.Call.StaticCallee(); cal != nil && c.P.RefName(cal) == "Matches" && len(call.Call.Args) == 2 && l.isIterKey(call.Call.Args[1]) {
 						dep = true
 					}
 				}
